@@ -107,7 +107,9 @@ def run_property(pid, tier, seed):
             agg['violations'].extend(res['violations'])
             agg['notes'].extend(res['notes'])
             for k, val in res['extra'].items():
-                if isinstance(val, (int, float)):
+                if isinstance(val, (int, float)) and k.startswith('max_'):
+                    agg['extra'][k] = max(agg['extra'].get(k, 0), val)
+                elif isinstance(val, (int, float)):
                     agg['extra'][k] = agg['extra'].get(k, 0) + val
                 elif isinstance(val, list):
                     agg['extra'].setdefault(k, [])
